@@ -187,7 +187,7 @@ theorem C14_ts_httpdate_roundtrip (t : Ts) (h1 : -62167219200 ≤ t.unix) (h2 : 
     counting calendar of the specification). It is parsed to exactly that instant, the written fraction
     and that offset whenever the instant lies in the years 0000 … 9999 of UTC (which covers every instant
     of the property's quantifier, years 1 … 9999); a local time within a day of either end whose instant
-    falls outside is REFUSED (since repair 62f4e8c: neither text form can express such an instant — until
+    falls outside is REFUSED (since repair b7ef08a: neither text form can express such an instant — until
     then it was accepted and `Timestamp::format` failed on the value, finding F-xml-7). Nothing in between:
     the statement is an equation for every such text. -/
 theorem C14_ts_instant_preserved_parse (Y m d H Mi S : Nat) (ms : Option Nat) (neg : Bool) (oh om : Nat)
@@ -202,7 +202,7 @@ theorem C14_ts_instant_preserved_parse (Y m d H Mi S : Nat) (ms : Option Nat) (n
 /-- … formatting half: the parsed value is written (DateTime and HttpDate) as a text that parses to
     the same instant with offset 0, i.e. `format` emits that instant in UTC — for every text the parser
     accepts (`h1`, `h2`: the instant lies in the years 0000 … 9999, which by the parsing half is exactly
-    when the text is accepted; before repair 62f4e8c this needed the years 1 … 9999 as an extra hypothesis,
+    when the text is accepted; before repair b7ef08a this needed the years 1 … 9999 as an extra hypothesis,
     because accepted texts near either end could not be written) -/
 theorem C14_ts_instant_preserved (Y m d H Mi S : Nat) (ms : Option Nat) (neg : Bool) (oh om : Nat)
     (hdate : validDate Y m d = true) (hH : H ≤ 23) (hMi : Mi ≤ 59) (hS : S ≤ 59)
@@ -228,7 +228,7 @@ theorem C14_ts_instant_preserved (Y m d H Mi S : Nat) (ms : Option Nat) (neg : B
     simpa only [hr] using this
   · exact httpdate_roundtrip ⟨rfc3339Instant Y m d H Mi S neg oh om, fracNanosOf ms, offsetSeconds neg oh om⟩ h1 h2
 
-/-- *an accepted timestamp can always be written* (FULL since repair 62f4e8c; until then false for
+/-- *an accepted timestamp can always be written* (FULL since repair b7ef08a; until then false for
     `9999-12-31T23:59:59-01:00`, finding F-xml-7 `xml-ts-format-panic`): whatever of the three forms a
     text was accepted in by `Timestamp::parse`, and whatever the text, all three arms of
     `Timestamp::format` succeed on the value — `utils::format::fmt_timestamp`, which unwraps that result
